@@ -22,15 +22,27 @@ RULE = ("family par/split: single splits of both producers for every len ≤ 24 
         "split trees for len ≤ 6/8 (1-D) and grids up to 3×2 / 3×3 (2-D); degenerate (k=0, k=len) two-level trees; seeded random "
         "trees (uniform, bisecting, 1-element halves, contract-wide) to length 600 / 10^4, each leaf drained forward, reversed and "
         "mixed. family par/pools: Steps/Steps2D collect/enumerate/rev, every JointSpectrum::*_range on 5 range representations, "
-        "Simpson integrate/integrate2d, counts_*, hom_rate and nested regions under rayon pools {1,2,4} / {1,2,3,4,8,16}×5 reps")
+        "Simpson integrate/integrate2d, counts_*, hom_rate and nested regions under rayon pools {1,2,4,8}×2 / {1,2,3,4,8,16}×5 reps. "
+        "family par/sweep (both tiers): hom_rate, hom_rate_series (synthetic amplitude arrays), SPDC::hom_rate_series, hom_visibility, "
+        "counts_*, efficiencies on grids n×n for n = 1..12 plus non-square and larger shapes, Simpson 1-D divs 128..256 and 2-D divs "
+        "4..24(64), each under EVERY pool size 1..16 against the 1-thread result at 1e-12")
 RESIDUAL = ("(a) floating-point re-association error of parallel sums and rounding drift of re-derived 1-D sub-range endpoints: "
             "measured (≤ 1e-12 / ≤ 1e-14), exact-arithmetic invariance is proved; (b) deadlock freedom of nested regions is a "
             "property of rayon's work-stealing scheduler: observed under a time cap only; (c) which split trees rayon requests "
             "is not modelled — the theorems hold for every tree the Producer contract allows")
+CHECKER_MODULES = ["Spdc.Real.GridLemmas"]
 TRUSTED_EXTRA = ["rayon 1.12 bridge/scheduler: requests only split indices 0 ≤ k ≤ len (Producer contract) and joins without deadlock"]
-ASSUMPTIONS = ["1-D tolerance '1e-14 relative' is read relative to the range scale max(|start|,|end|) (a point of the range may be exactly 0)"]
+ASSUMPTIONS = [
+    "1-D tolerance '1e-14 relative' is read relative to the range scale max(|start|,|end|) (a point of the range may be exactly 0)",
+    "'bit-identical arrays' is demanded of every *_range function whose per-point evaluation is sequential (all of them under a "
+    "Gauss-Legendre integrator; jsa/jsi under Simpson with divs < 128); the jsi_singles_* functions under Simpson evaluate each "
+    "point by simpson2d, itself a parallel quadrature sum, and are held to the reductions clause (1e-12 relative per element; "
+    "elements below 1e-3 of the array's peak relative to 1e-3*peak) — measured worst 4e-14",
+    "random split trees are capped at depth 400 (rayon's bridge bisects: depth <= ceil(log2 len)); degenerate chains of depth "
+    ">= ~6800 on 10^4-point ranges drift by 1.003e-14..1.007e-14 of the range scale (measured with the extra argument depth=10000)",
+]
 
 
 def families(tier, seed):
     n = 160 if tier == "quick" else 1200
-    return [("par", seed, n, ["split"]), ("par", seed, n, ["pools"])]
+    return [("par", seed, n, ["split"]), ("par", seed, n, ["pools"]), ("par", seed, n, ["sweep"])]
